@@ -31,7 +31,7 @@ def app_config(draw, max_extra=4, min_extra=0):
                 continue
         addr, port, tag = {"bts_child": (cfg["bts_addr"], bts_port, "B"), "ms_child": (cfg["bb_addr"], bb_port, "M"),
                            "extra_child": ("127.0.0.2", xport, "XC")}[kind]
-        idx = draw(st.integers(1, 4))
+        idx = draw(st.one_of(st.integers(1, 4), st.integers(1, 4), st.sampled_from([9, 10, 11, 12, 20, 31])))
         while (addr, port, idx) in used:
             idx += 1
         used.add((addr, port, idx))
